@@ -80,7 +80,7 @@ Definition prop_c04 (c : case) : bool :=
   | CUnpack _ _ _ _ UPanic _ => false
   (* every reachable value implementing Validate() accepts (the hooks of the hand-written
      targets: vRange requires Min <= Max, vOuter rejects the label "forbidden") *)
-  | CHooked _ _ _ (UOk v) _ =>
+  | CHooked what _ _ (UOk v) _ =>
     let range_ok (x : gv) := match x with
                              | GStructV [GP (CI mn); GP (CI mx); _] => mn <=? mx
                              | _ => true end in
@@ -88,6 +88,10 @@ Definition prop_c04 (c : case) : bool :=
     | GStructV [GP (CS label); r; p; _] =>
       negb (String.eqb label "forbidden") && range_ok r &&
       match p with GPtr x => range_ok x | _ => true end
+    (* vInit: tags min=1 on A and B, Validate of C rejects negatives - whether the value came
+       from a setting or from InitDefaults *)
+    | GStructV [GP (CI a); GP (CI b); GP (CI c0)] =>
+      if String.eqb what "vInit" then (1 <=? a) && (1 <=? b) && (0 <=? c0) else range_ok v
     | _ => range_ok v
     end
   | CHooked _ _ _ UPanic _ => false
